@@ -1666,6 +1666,15 @@ impl Machine {
     pub fn execute_main(&mut self) -> ReturnCode {
         // 0 is always base pointer to the main function
         self.base_pointer += 1;
+        // Global initialisers may own state cells (`let g = mem(1.0)`); they live in the
+        // global storage, which must cover main's layout. Never shrink here: after a
+        // hot swap the storage already holds the migrated state of dsp.
+        if let Some((_, main)) = self.prog.global_fn_table.first() {
+            let main_size = main.state_skeleton.total_size() as usize;
+            if self.global_states.rawdata.len() < main_size {
+                self.global_states.resize(main_size);
+            }
+        }
         self.execute(0, None)
     }
 }
